@@ -8,6 +8,17 @@ import os
 
 import vlib
 
+PROPS = ["C15"]
+ENGINE = "spec/MergeSource: monitor + implementation-shaped model (TLC exhaustive), replay of all TLC behaviours into the real MergeSource, trace validation of seeded random runs"
+MANIFEST = {
+    "C15": {
+        "text": "TLC exhaustively checks the implementation-shaped model of poll_next (cursor, None-marking, compaction) against the C15 monitor for every configuration of <=3 sources x scripts <=3 (4 thorough); every TLC behaviour is replayed into the real MergeSource<TaggedSource> and seeded random larger runs are recorded; TLC validates all recorded traces against the monitor (per-sender order, no loss/dup, end exactly when all ended, one-round fairness).",
+        "note": "Trusts the scripted stream doubles and hook H1 (constructor only). Sources are fused. Bounded: <=6 sources, scripts <=8 in random runs.",
+        "technique": "TLA+ spec model-checked with TLC + conformance (TLC behaviours replayed into the code; code traces validated by TLC)",
+        "design_ref": "DESIGN.md §6.8",
+    },
+}
+
 SD = os.path.join(vlib.SPEC, "MergeSource")
 ACTIONS = ["Enter", "LoopStep", "Cleanup"]
 
